@@ -456,7 +456,9 @@ class Result:
               "wall_s": round(time.time() - self.t0, 2), "violations": len(self.violations)}
         if self.violations:
             ev["violation_details"] = [{"key": k, "replay": p, "witness": w, "text": t[:2000]} for k, p, w, t in self.violations]
-        with open(os.path.join(EVID, self.pid + ".json"), "w") as f:
+        # a --replay run does not overwrite the evidence of the last quick/thorough run
+        evpath = os.path.join(EVID, self.pid + ".json") if not getattr(self, "is_replay", False) else os.path.join(BUILD, "replay_evidence_%s.json" % self.pid)
+        with open(evpath, "w") as f:
             json.dump(ev, f, indent=1, sort_keys=True)
             f.write("\n")
         for k, p, w, t in self.violations:
